@@ -53,7 +53,9 @@ def stats_entries(g, L, known, grid, removal=True):
     present = [n for n in known if g.has_node(L.node(n))]
     directed = g.is_directed()
     cn = L.node
-    if not directed:
+    # the ratio measures are stated for graphs without self-loops; the inter-event distributions for both classes, loops or not
+    loops = any(g.has_interaction(cn(n), cn(n)) for n in present)
+    if not directed and not loops:
         _entry(es, "coverage", 0, 0, 0, lambda: g.coverage(), "rat", L)
         _entry(es, "uniformity", 0, 0, 0, lambda: g.uniformity(), "rat", L)
         _entry(es, "density", 0, 0, 0, lambda: g.density(), "rat", L)
@@ -79,7 +81,7 @@ def stats_entries(g, L, known, grid, removal=True):
             _entry(es, "iet_in", u, 0, 0, lambda: g.inter_in_event_time_distribution(cn(u)), "hist", L)
             _entry(es, "iet_out", u, 0, 0, lambda: g.inter_out_event_time_distribution(cn(u)), "hist", L)
     # beyond the listed properties (clause X17_iet_pair, reported only): the pair form
-    if not directed:
+    if not directed and not loops:
         for u in present:
             for v in present:
                 if u < v and g.has_interaction(cn(u), cn(v)):
@@ -148,7 +150,8 @@ def run(prop, tier, seed):
     for _ in range(80 if tier == "quick" else 2000):
         nn = rng.choice([3, 4, 5, 6])
         tmax = rng.choice([3, 5, 8, 12])
-        calls = [c for c in drivers.rand_history(rng, nn, tmax, rng.randint(3, 20)) if _loop_free([c])]
+        keep_loops = rng.random() < 0.3      # graphs with self-loops: only the inter-event distributions are asked for
+        calls = [c for c in drivers.rand_history(rng, nn, tmax, rng.randint(3, 20)) if keep_loops or _loop_free([c])]
         if not calls:
             continue
         jobs.append((rng.randrange(1 << 30), rng.random() < 0.35, calls, rng.choice(LABS), drivers.known_of(calls), drivers.grid_of(calls),
